@@ -40,6 +40,9 @@ def run(ctx):
     ctx.attempt("check_guards", check_guards, ctx, lib)
     ctx.attempt("check_parse_index", check_parse_index, ctx, lib)
     ctx.attempt("check_index", check_index, ctx, lib)
+    # start/stop/step/index are the integers the user wrote: the lexer's number conversion (shared with C03)
+    from .c03 import check_number_lexing
+    ctx.attempt("check_number_lexing", check_number_lexing, ctx, lib, "number-literal")
 
 
 def check_guards(ctx, lib):
